@@ -560,6 +560,8 @@ Qed.
 
 (* the statement of DESIGN.md 6/C09: for every program the parser produces *)
 Definition parsed (p : program) : Prop := exists s, parse_string s = POk p.
+Lemma parse_string_parsed : forall s p, parse_string s = POk p -> parsed p.
+Proof. intros s p H. exists s. exact H. Qed.
 Theorem tc_total : forall p, parsed p ->
   (forall w, typecheck p <> RejectInternal w) /\ (forall w, typecheck p <> Diverge w).
 Proof. intros p _. apply tc_total_all. Qed.
